@@ -9,9 +9,16 @@ def scenario(r, quick):
     n = r.weighted([(1, 1), (2, 3), (3, 5), (4, 4), (5, 3), (r.range(6, 9), 2)])
     f = r.range(1, n + 1)
     hosts = []
+    faulty = r.chance(1, 3)       # a third of the scenarios have hosts that refuse, hang in connect or hang mid-command
     for i in range(n):
         out = "A" + (b"o%d\n" % i).hex() if r.chance(2, 3) else "-"
-        hosts.append(("h%d" % i, "o", out, "-", 0))
+        b = r.weighted([("o", 5), ("r", 2), ("h", 1), ("H", 1)]) if faulty else "o"
+        if b == "o":
+            hosts.append(("h%d" % i, "o", out, "-", 0))
+        elif b == "H":
+            hosts.append(("h%d" % i, "o", "H", "-", 0))
+        else:
+            hosts.append(("h%d" % i, b, "-", "-", 0))
     return n, f, hosts
 
 
@@ -20,6 +27,16 @@ def judge_c04(run, n, f):
         return "run did not finish (wall-clock timeout)"
     if run.peak is not None and run.peak > f:
         return "peak number of connections in flight %d exceeds fanout %d" % (run.peak, f)
+    # progress: while targets remain the dispatcher parks only when f commands are started and not finished
+    tcv, created = 0, 0
+    for st, k, fl in run.events:
+        if k == "UNLOCK" and fl[1] == "m0" and len(fl) > 3 and fl[2] == "tc" and fl[3] != "-1":
+            tcv = int(fl[3])
+        elif k == "CREATE" and fl[0].startswith("W"):
+            created += 1
+        elif k == "WAIT" and fl[0] == "M0" and created < n and tcv + 0 < f and created >= 1:
+            # (threadcount as last published under the mutex; the dispatcher's own increment is published at its unlock)
+            return "the dispatcher waits with %d command(s) started and not finished although the fanout is %d and %d target(s) remain" % (tcv, f, n - created)
     return None
 
 
@@ -67,8 +84,10 @@ def run(ctx, prop=PROP, judge=judge_c04, title="peak connections in flight <= fa
     for k in range(nrun):
         n, f, hosts = scenario(r, quick)
         spur = r.weighted([(0, 3), (1, 3), (2, 2), (4, 1)])
-        ru = eng.run(["-R", "sim", "-f", str(f), "-w", "h[0-%d]" % (n - 1), "cmd"], hosts, seed=r.next() % (1 << 31), spur=spur,
-                     pspur=r.choice([10, 30, 60]))
+        faulty = any(h[1] != "o" or h[2] == "H" for h in hosts)
+        ru = eng.run(["-R", "sim", "-f", str(f)] + (["-t", "1", "-u", "1"] if faulty else []) + ["-w", "h[0-%d]" % (n - 1), "cmd"], hosts,
+                     seed=r.next() % (1 << 31), spur=spur, pspur=r.choice([10, 30, 60]), ptick=0 if faulty else 5,
+                     env={"SCHED_MAXSTEP": "30000"}, timeout=10)
         runs.append((ru, n, f))
     # the configured fanout is the one in effect whatever the descriptor limit of the process is
     for k in range(40 if quick else 600):
